@@ -1018,6 +1018,9 @@ func requireWire(r *vlib.Run) {
 	r.Require("wireborn_ptr_redirections_prod", 30)
 	r.Require("wireborn_ptr_redirections_bare", 30)
 	r.Require("wireborn_ptr_undecoded_at_dns64", 100)
+	// overlapping configured prefixes through the wire entries
+	r.Require("wire_synth_records_under_overlapped_prefix", 20)
+	r.Require("wire_ptr_translated_under_overlapped_prefix", 5)
 	r.Require("decoded_aaaa_synthesised", 100)
 	r.Require("decoded_cached_failure_nonedns", 40)
 	r.Require("decoded_request_local_failure", 80)
